@@ -277,4 +277,5 @@ def run(ascn, loop):
 
 if __name__ == '__main__':
     loop = asyncio.new_event_loop()
-    json.dump([run(s, loop) for s in json.load(open(sys.argv[1]))], open(sys.argv[2], 'w'))
+    from _guard import guarded
+    json.dump([guarded(run)(s, loop) for s in json.load(open(sys.argv[1]))], open(sys.argv[2], 'w'))
